@@ -51,6 +51,15 @@ def groups(n, seed):
                 {"prob": ps, "params": pk, "run": "C", "algkey": 2, "twin": "C10"},
                 {"prob": ps, "params": pk, "run": "D", "algkey": 2, "twin": "C10", "same_solver_as": "A"}]
         gs.append({"tag": "C10", "runs": runs})
+    # two solvers built one after the other on ONE problem object, no scaling, equality rows with a right-hand side
+    for i in range(max(3, n // 12)):
+        ps = ("convex_qp", int(rng.integers(0, 2 ** 31)), int(rng.integers(3, 6)), 2,
+              {"row_kinds": [["eq", "lower"], ["eq", "eq0"], ["ranged", "eq"]][i % 3], "fmt": ("coo", "csr", "csc")[i % 3]})
+        pk = gen.random_params(rng, iteration_limit=18)
+        gs.append({"tag": "C10.sameproblem.unscaled", "runs": [
+            {"prob": ps, "params": pk, "run": "A", "algkey": 2, "twin": "C10"},
+            {"prob": ps, "params": pk, "run": "B", "algkey": 2, "twin": "C10", "same_problem_as": "A"},
+            {"prob": ps, "params": pk, "run": "C", "algkey": 2, "twin": "C10"}]})
     # omitted start vectors mean the defaults, whatever the solver object was given before
     for i in range(max(4, n // 10)):
         ps = family_spec(i, rng)
